@@ -28,11 +28,11 @@ FLOORS = {
     "quick": {"evaluations": 3000, "distinct": 300,
               "counters": {"buffer_rule_checks": 1500, "dump_checks": 800, "with_empty_pieces": 100,
                            "module_checks": 200, "module_history_steps": 300,
-                           "buffer_switch_histories": 400}},
+                           "buffer_switch_histories": 400, "dump_error_handler_checks": 800}},
     "thorough": {"evaluations": 60000, "distinct": 5000,
                  "counters": {"buffer_rule_checks": 30000, "dump_checks": 16000,
                               "with_empty_pieces": 2000, "module_checks": 4000, "module_history_steps": 6000,
-                              "buffer_switch_histories": 8000}},
+                              "buffer_switch_histories": 8000, "dump_error_handler_checks": 16000}},
 }
 
 
@@ -158,6 +158,20 @@ def check_case(ctx, case, tmpdir, is_async=False):
     ctx.count("dump_checks")
     if bbuf.getvalue().decode("utf-8") != text:
         viol("dump:binaryfile", f"dump(BytesIO, utf-8) {bbuf.getvalue()!r} != {text!r}")
+    # encodings that cannot represent the text, with every error handler the caller may pass
+    for enc, errors in (("ascii", "xmlcharrefreplace"), ("ascii", "replace"), ("ascii", "ignore"),
+                        ("latin-1", "backslashreplace"), ("ascii", "strict")):
+        bb = io.BytesIO()
+        r = util.capture(lambda: get().stream(data()).dump(bb, encoding=enc, errors=errors))
+        want = util.capture(lambda: text.encode(enc, errors))
+        ctx.count("dump_checks")
+        ctx.count("dump_error_handler_checks")
+        if want.ok != r.ok or (want.ok and bb.getvalue() != want.value) or \
+                (not want.ok and type(r.exc) is not type(want.exc)):
+            viol("dump:encoding-errors:" + errors,
+                 f"dump(BytesIO, {enc!r}, {errors!r}) -> {r!r} / {bb.getvalue()[:80]!r}; "
+                 f"render().encode({enc!r}, {errors!r}) -> {want!r}")
+            break
     wo = WriteOnly()
     get().stream(data()).dump(wo)
     ctx.count("dump_checks")
